@@ -9,7 +9,7 @@ from sa.load import AnalysisError, Repo, loc
 from sa.report import Run
 from sa.scipp_model import Model
 
-from .common import eq_term, evaluate_global, events, returns, show
+from .common import beamline_graph, elastic_graphs, eq_term, events, returns, show
 
 PER_EVENT_BREAKERS = ('reduction-of-tainted', 'index-of-tainted', 'numpy-on-tainted', 'raw-value')
 EXTRA_KERNELS = [
@@ -20,13 +20,13 @@ EXTRA_KERNELS = [
 
 def graph_kernels(repo: Repo):
     out = {}
-    table = evaluate_global(repo, 'conversion.graph.tof', '_GRAPH_DYNAMICS_BY_ORIGIN')
+    table = elastic_graphs(repo)
     for graph in table.values():
         for ref in graph.values():
             if isinstance(ref, FuncRef):
                 out[ref.fi.fq] = ref.fi
-    for tbl in ('_SCATTER_GRAPH_BEAMLINE', '_NO_SCATTER_GRAPH_BEAMLINE'):
-        for ref in evaluate_global(repo, 'conversion.graph.beamline', tbl).values():
+    for scatter in (True, False):
+        for ref in beamline_graph(repo, scatter).values():
             if isinstance(ref, FuncRef):
                 out[ref.fi.fq] = ref.fi
     for fac in ('direct_inelastic', 'indirect_inelastic'):
